@@ -389,6 +389,7 @@ class Repo(object):
             from . import objflat
             # generic functions read as isinstance chains; helper classes are left as written here (the rules for the
             # Python modules know the classes of the reference tree by role) -- the Cython front end flattens them
+            objflat.plain_local_assignments(tree)
             if rel in FLATTEN_CLASSES:
                 flattened = objflat.flatten(tree)
             else:
